@@ -75,8 +75,13 @@ pub fn filter_simd(array: &dyn Array, predicate: &[bool]) -> Result<ArrayRef> {
 
             let mut values = Vec::new();
             for (i, &valid) in predicate.iter().enumerate() {
-                if valid && !int_array.is_null(i) {
-                    values.push(int_array.value(i));
+                if valid {
+                    // a selected NULL row stays a NULL row (as in arrow::compute::filter)
+                    values.push(if int_array.is_null(i) {
+                        None
+                    } else {
+                        Some(int_array.value(i))
+                    });
                 }
             }
 
@@ -90,8 +95,13 @@ pub fn filter_simd(array: &dyn Array, predicate: &[bool]) -> Result<ArrayRef> {
 
             let mut values = Vec::new();
             for (i, &valid) in predicate.iter().enumerate() {
-                if valid && !float_array.is_null(i) {
-                    values.push(float_array.value(i));
+                if valid {
+                    // a selected NULL row stays a NULL row (as in arrow::compute::filter)
+                    values.push(if float_array.is_null(i) {
+                        None
+                    } else {
+                        Some(float_array.value(i))
+                    });
                 }
             }
 
@@ -105,8 +115,13 @@ pub fn filter_simd(array: &dyn Array, predicate: &[bool]) -> Result<ArrayRef> {
 
             let mut values = Vec::new();
             for (i, &valid) in predicate.iter().enumerate() {
-                if valid && !bool_array.is_null(i) {
-                    values.push(bool_array.value(i));
+                if valid {
+                    // a selected NULL row stays a NULL row (as in arrow::compute::filter)
+                    values.push(if bool_array.is_null(i) {
+                        None
+                    } else {
+                        Some(bool_array.value(i))
+                    });
                 }
             }
 
@@ -162,12 +177,16 @@ fn compare_eq(left: &dyn Array, right: &dyn Array) -> Result<BooleanArray> {
                 .downcast_ref::<Int64Array>()
                 .ok_or_else(|| QueryError::Execution("Failed to downcast right".to_string()))?;
 
-            let mut values = vec![false; left.len()];
-            for i in 0..left.len() {
-                values[i] = left_arr.value(i) == right_arr.value(i);
-            }
-
-            Ok(BooleanArray::from(values))
+            // NULL when either operand is NULL, as in Arrow's cmp kernels
+            Ok((0..left.len())
+                .map(|i| {
+                    if left_arr.is_null(i) || right_arr.is_null(i) {
+                        None
+                    } else {
+                        Some(left_arr.value(i) == right_arr.value(i))
+                    }
+                })
+                .collect::<BooleanArray>())
         }
         DataType::Float64 => {
             let left_arr = left
@@ -179,12 +198,16 @@ fn compare_eq(left: &dyn Array, right: &dyn Array) -> Result<BooleanArray> {
                 .downcast_ref::<Float64Array>()
                 .ok_or_else(|| QueryError::Execution("Failed to downcast right".to_string()))?;
 
-            let mut values = vec![false; left.len()];
-            for i in 0..left.len() {
-                values[i] = left_arr.value(i) == right_arr.value(i);
-            }
-
-            Ok(BooleanArray::from(values))
+            // NULL when either operand is NULL, as in Arrow's cmp kernels
+            Ok((0..left.len())
+                .map(|i| {
+                    if left_arr.is_null(i) || right_arr.is_null(i) {
+                        None
+                    } else {
+                        Some(left_arr.value(i) == right_arr.value(i))
+                    }
+                })
+                .collect::<BooleanArray>())
         }
         _ => Err(QueryError::Execution(format!(
             "Unsupported type for EQ comparison: {:?}",
@@ -195,11 +218,7 @@ fn compare_eq(left: &dyn Array, right: &dyn Array) -> Result<BooleanArray> {
 
 fn compare_ne(left: &dyn Array, right: &dyn Array) -> Result<BooleanArray> {
     let eq_result = compare_eq(left, right)?;
-    let mut values = vec![false; left.len()];
-    for i in 0..left.len() {
-        values[i] = !eq_result.value(i);
-    }
-    Ok(BooleanArray::from(values))
+    Ok(eq_result.iter().map(|v| v.map(|b| !b)).collect::<BooleanArray>())
 }
 
 fn compare_lt(left: &dyn Array, right: &dyn Array) -> Result<BooleanArray> {
@@ -214,12 +233,16 @@ fn compare_lt(left: &dyn Array, right: &dyn Array) -> Result<BooleanArray> {
                 .downcast_ref::<Int64Array>()
                 .ok_or_else(|| QueryError::Execution("Failed to downcast right".to_string()))?;
 
-            let mut values = vec![false; left.len()];
-            for i in 0..left.len() {
-                values[i] = left_arr.value(i) < right_arr.value(i);
-            }
-
-            Ok(BooleanArray::from(values))
+            // NULL when either operand is NULL, as in Arrow's cmp kernels
+            Ok((0..left.len())
+                .map(|i| {
+                    if left_arr.is_null(i) || right_arr.is_null(i) {
+                        None
+                    } else {
+                        Some(left_arr.value(i) < right_arr.value(i))
+                    }
+                })
+                .collect::<BooleanArray>())
         }
         DataType::Float64 => {
             let left_arr = left
@@ -231,12 +254,16 @@ fn compare_lt(left: &dyn Array, right: &dyn Array) -> Result<BooleanArray> {
                 .downcast_ref::<Float64Array>()
                 .ok_or_else(|| QueryError::Execution("Failed to downcast right".to_string()))?;
 
-            let mut values = vec![false; left.len()];
-            for i in 0..left.len() {
-                values[i] = left_arr.value(i) < right_arr.value(i);
-            }
-
-            Ok(BooleanArray::from(values))
+            // NULL when either operand is NULL, as in Arrow's cmp kernels
+            Ok((0..left.len())
+                .map(|i| {
+                    if left_arr.is_null(i) || right_arr.is_null(i) {
+                        None
+                    } else {
+                        Some(left_arr.value(i) < right_arr.value(i))
+                    }
+                })
+                .collect::<BooleanArray>())
         }
         _ => Err(QueryError::Execution(format!(
             "Unsupported type for LT comparison: {:?}",
@@ -248,11 +275,14 @@ fn compare_lt(left: &dyn Array, right: &dyn Array) -> Result<BooleanArray> {
 fn compare_le(left: &dyn Array, right: &dyn Array) -> Result<BooleanArray> {
     let lt_result = compare_lt(left, right)?;
     let eq_result = compare_eq(left, right)?;
-    let mut values = vec![false; left.len()];
-    for i in 0..left.len() {
-        values[i] = lt_result.value(i) || eq_result.value(i);
-    }
-    Ok(BooleanArray::from(values))
+    Ok(lt_result
+        .iter()
+        .zip(eq_result.iter())
+        .map(|(lt, eq)| match (lt, eq) {
+            (Some(lt), Some(eq)) => Some(lt || eq),
+            _ => None,
+        })
+        .collect::<BooleanArray>())
 }
 
 fn compare_gt(left: &dyn Array, right: &dyn Array) -> Result<BooleanArray> {
@@ -265,6 +295,14 @@ fn compare_ge(left: &dyn Array, right: &dyn Array) -> Result<BooleanArray> {
 
 /// SIMD-optimized add operation
 pub fn add_simd(left: &dyn Array, right: &dyn Array) -> Result<ArrayRef> {
+    if left.len() != right.len() {
+        return Err(QueryError::Execution(format!(
+            "Left length {} != right length {}",
+            left.len(),
+            right.len()
+        )));
+    }
+
     match left.data_type() {
         DataType::Int64 => {
             let left_arr = left
@@ -276,9 +314,14 @@ pub fn add_simd(left: &dyn Array, right: &dyn Array) -> Result<ArrayRef> {
                 .downcast_ref::<Int64Array>()
                 .ok_or_else(|| QueryError::Execution("Failed to downcast right".to_string()))?;
 
+            // NULL when either operand is NULL, as in Arrow's numeric kernels
             let mut values = Vec::with_capacity(left.len());
             for i in 0..left.len() {
-                values.push(left_arr.value(i) + right_arr.value(i));
+                values.push(if left_arr.is_null(i) || right_arr.is_null(i) {
+                    None
+                } else {
+                    Some(left_arr.value(i) + right_arr.value(i))
+                });
             }
 
             Ok(Arc::new(Int64Array::from(values)))
@@ -293,9 +336,14 @@ pub fn add_simd(left: &dyn Array, right: &dyn Array) -> Result<ArrayRef> {
                 .downcast_ref::<Float64Array>()
                 .ok_or_else(|| QueryError::Execution("Failed to downcast right".to_string()))?;
 
+            // NULL when either operand is NULL, as in Arrow's numeric kernels
             let mut values = Vec::with_capacity(left.len());
             for i in 0..left.len() {
-                values.push(left_arr.value(i) + right_arr.value(i));
+                values.push(if left_arr.is_null(i) || right_arr.is_null(i) {
+                    None
+                } else {
+                    Some(left_arr.value(i) + right_arr.value(i))
+                });
             }
 
             Ok(Arc::new(Float64Array::from(values)))
@@ -309,6 +357,14 @@ pub fn add_simd(left: &dyn Array, right: &dyn Array) -> Result<ArrayRef> {
 
 /// SIMD-optimized multiply operation
 pub fn multiply_simd(left: &dyn Array, right: &dyn Array) -> Result<ArrayRef> {
+    if left.len() != right.len() {
+        return Err(QueryError::Execution(format!(
+            "Left length {} != right length {}",
+            left.len(),
+            right.len()
+        )));
+    }
+
     match left.data_type() {
         DataType::Int64 => {
             let left_arr = left
@@ -320,9 +376,14 @@ pub fn multiply_simd(left: &dyn Array, right: &dyn Array) -> Result<ArrayRef> {
                 .downcast_ref::<Int64Array>()
                 .ok_or_else(|| QueryError::Execution("Failed to downcast right".to_string()))?;
 
+            // NULL when either operand is NULL, as in Arrow's numeric kernels
             let mut values = Vec::with_capacity(left.len());
             for i in 0..left.len() {
-                values.push(left_arr.value(i) * right_arr.value(i));
+                values.push(if left_arr.is_null(i) || right_arr.is_null(i) {
+                    None
+                } else {
+                    Some(left_arr.value(i) * right_arr.value(i))
+                });
             }
 
             Ok(Arc::new(Int64Array::from(values)))
@@ -337,9 +398,14 @@ pub fn multiply_simd(left: &dyn Array, right: &dyn Array) -> Result<ArrayRef> {
                 .downcast_ref::<Float64Array>()
                 .ok_or_else(|| QueryError::Execution("Failed to downcast right".to_string()))?;
 
+            // NULL when either operand is NULL, as in Arrow's numeric kernels
             let mut values = Vec::with_capacity(left.len());
             for i in 0..left.len() {
-                values.push(left_arr.value(i) * right_arr.value(i));
+                values.push(if left_arr.is_null(i) || right_arr.is_null(i) {
+                    None
+                } else {
+                    Some(left_arr.value(i) * right_arr.value(i))
+                });
             }
 
             Ok(Arc::new(Float64Array::from(values)))
@@ -360,14 +426,15 @@ pub fn sum_simd(array: &dyn Array) -> Result<ScalarValue> {
                 .downcast_ref::<Int64Array>()
                 .ok_or_else(|| QueryError::Execution("Failed to downcast array".to_string()))?;
 
-            let mut sum = 0i64;
+            // the sum of no values is NULL (as in arrow::compute::sum), not 0
+            let mut sum: Option<i64> = None;
             for i in 0..array.len() {
                 if !array.is_null(i) {
-                    sum += int_array.value(i);
+                    sum = Some(sum.unwrap_or(0) + int_array.value(i));
                 }
             }
 
-            Ok(ScalarValue::Int64(Some(sum)))
+            Ok(ScalarValue::Int64(sum))
         }
         DataType::Float64 => {
             let float_array = array
@@ -375,14 +442,14 @@ pub fn sum_simd(array: &dyn Array) -> Result<ScalarValue> {
                 .downcast_ref::<Float64Array>()
                 .ok_or_else(|| QueryError::Execution("Failed to downcast array".to_string()))?;
 
-            let mut sum = 0.0f64;
+            let mut sum: Option<f64> = None;
             for i in 0..array.len() {
                 if !array.is_null(i) {
-                    sum += float_array.value(i);
+                    sum = Some(sum.unwrap_or(0.0) + float_array.value(i));
                 }
             }
 
-            Ok(ScalarValue::Float64(Some(sum)))
+            Ok(ScalarValue::Float64(sum))
         }
         _ => Err(QueryError::Execution(format!(
             "Unsupported type for sum: {:?}",
